@@ -29,7 +29,9 @@ fn configure<const N: u32, const TCP: bool>() {
     let sent = any_instant();
     let send_cancelled: bool = kani::any();
     let mut a = StunAgent::builder(if TCP { TransportType::Tcp } else { TransportType::Udp }, addr(0)).build();
-    a.verif_insert_request(tid(1), vec![0u8; MSG_LEN], addr(1), false, if TCP { vec![] } else { vec![500, 1000] }, 8000, ti, Some(sent), send_cancelled, false);
+    // (the pre-state table is non-empty for TCP as well: replacing an EMPTY Vec<u64> trips a false allocation-size
+    // check in Kani's dealloc model)
+    a.verif_insert_request(tid(1), vec![0u8; MSG_LEN], addr(1), false, vec![500, 1000], 8000, ti, Some(sent), send_cancelled, false);
     a.verif_insert_request(tid(2), vec![0u8; MSG_LEN], addr(2), false, if TCP { vec![] } else { vec![500, 1000] }, 8000, 0, Some(sent), false, false);
     a.mut_request_transaction(tid(1)).unwrap().configure_timeout(rto, N, last);
     let st = a.verif_request_state(tid(1)).unwrap();
